@@ -92,7 +92,9 @@ def body_cases(E, k, s1, s2, s3, s4, nsub, kind, dictsp, flat, via, base, shuf, 
         log.append((a, b, c))
         return result_of(kind, base + 100 * a + 10 * b + c)
 
-    cases = [{"a": a, "b": b} for a, b in pts] if cbool(dictsp) else None
+    # dict spelling: every other case lists its keys in the opposite order
+    cases = [({"a": a, "b": b} if i % 2 == 0 else {"b": b, "a": a}) for i, (a, b) in enumerate(pts)] \
+        if cbool(dictsp) else None
     combos = {"c": SUB[:nsub]} if nsub else None
     with E(pools=[js[:N]]) as env:
         opts = {}
